@@ -37,6 +37,9 @@ var failSeen = map[string]int{}
 
 func fail(prop, clause, format string, a ...interface{}) {
 	nfail++
+	if prop == *owner {
+		ownerFails++
+	}
 	failSeen[prop+clause]++
 	if failSeen[prop+clause] <= 3 { // the first few of each kind are enough
 		fmt.Fprintf(out, "FAIL %s %s %s\n", prop, clause, fmt.Sprintf(format, a...))
@@ -191,7 +194,9 @@ func envRetry(mk func() error) error {
 	}
 }
 
-var envWaits, hung int
+var envWaits, hung, ownerFails int
+
+var owner = flag.String("owner", "", "the property this run is for (decides when a deadlocked tree ends the run early)")
 
 func newW(capEv uint) (w *fsnotify.Watcher, err error) {
 	err = envRetry(func() error {
@@ -295,8 +300,23 @@ func pendingScenario(rng *rand.Rand, capEv uint, nev int, pendingErr string, con
 	os.Mkdir(other, 0o755)
 	// what the reader will be handed: nev creates for the watched directory (wd 1), then the error trigger
 	var dg []byte
+	mixed := rng.Intn(3) == 0 // also moves: pairs, a file moved in from elsewhere (no partner), a file moved out
 	for i := 0; i < nev; i++ {
-		dg = append(dg, rec(1, unix.IN_CREATE, 0, fmt.Sprintf("e%d", i))...)
+		k := 0
+		if mixed {
+			k = rng.Intn(6)
+		}
+		switch k {
+		case 1:
+			dg = append(dg, rec(1, unix.IN_MOVED_TO, uint32(1000+i), fmt.Sprintf("in%d", i))...)
+		case 2:
+			dg = append(dg, rec(1, unix.IN_MOVED_FROM, uint32(2000+i), fmt.Sprintf("a%d", i))...)
+			dg = append(dg, rec(1, unix.IN_MOVED_TO, uint32(2000+i), fmt.Sprintf("b%d", i))...)
+		case 3:
+			dg = append(dg, rec(1, unix.IN_MOVED_FROM, uint32(3000+i), fmt.Sprintf("out%d", i))...)
+		default:
+			dg = append(dg, rec(1, unix.IN_CREATE, 0, fmt.Sprintf("e%d", i))...)
+		}
 	}
 	switch pendingErr {
 	case "overflow":
@@ -361,7 +381,7 @@ func pendingScenario(rng *rand.Rand, capEv uint, nev int, pendingErr string, con
 		unix.Write(p.sock, []byte{1, 2, 3})
 	}
 	time.Sleep(30 * time.Millisecond) // let the reader reach its blocking point
-	scen("pending cap=%d nev=%d err=%s consumer=%s calls=%s concurrent=%v", capEv, nev, pendingErr, consumer, strings.Join(calls, ","), concurrent)
+	scen("pending cap=%d nev=%d moves=%v err=%s consumer=%s calls=%s concurrent=%v", capEv, nev, mixed, pendingErr, consumer, strings.Join(calls, ","), concurrent)
 	results := make([]string, len(calls))
 	run := func(i int, c string) {
 		var r string
@@ -903,6 +923,209 @@ func absorb(rng *rand.Rand, sz uint) {
 	p.w.Close()
 }
 
+// recursiveScenario: a recursive watch (dir/...), a whole tree created or moved into it while nobody receives from
+// Events: the reader registers the new directories and then waits in its send — outside the mutex — so every control
+// call still returns; after Close the API is inert for recursive spellings too.
+func recursiveScenario(rng *rand.Rand, capEv uint, how string) {
+	fsnotify.VerifSetRecurse(true)
+	defer fsnotify.VerifSetRecurse(false)
+	base, _ := os.MkdirTemp("", "vconc")
+	defer os.RemoveAll(base)
+	dir := filepath.Join(base, "watched")
+	outside := filepath.Join(base, "outside")
+	os.MkdirAll(filepath.Join(dir, "pre", "deep"), 0o755)
+	os.MkdirAll(filepath.Join(outside, "t", "u", "v"), 0o755)
+	os.WriteFile(filepath.Join(outside, "t", "u", "file"), nil, 0o644)
+	w, err := newW(capEv)
+	if err != nil {
+		fail("C13", "new-watcher-failed", "%v", err)
+		return
+	}
+	before := inotifyFds() - 1
+	if err := w.Add(filepath.Join(dir, "...")); err != nil {
+		fmt.Fprintf(out, "  recursive Add not supported here: %v\n", err)
+		w.Close()
+		return
+	}
+	scen("recursive cap=%d how=%s", capEv, how)
+	switch how {
+	case "move-tree-in":
+		os.Rename(filepath.Join(outside, "t"), filepath.Join(dir, "t"))
+	case "mkdir-p":
+		os.MkdirAll(filepath.Join(dir, "n1", "n2", "n3"), 0o755)
+	case "move-then-rename":
+		os.Rename(filepath.Join(outside, "t"), filepath.Join(dir, "t"))
+		os.Rename(filepath.Join(dir, "pre"), filepath.Join(dir, "pre2"))
+		os.WriteFile(filepath.Join(dir, "pre2", "deep", "f"), nil, 0o644)
+	}
+	time.Sleep(40 * time.Millisecond) // the reader reaches its send; nobody receives
+	calls := []struct {
+		name string
+		f    func()
+	}{
+		{"list", func() { w.WatchList() }},
+		{"add", func() { w.Add(filepath.Join(dir, "pre")) }},
+		{"remove", func() { w.Remove(filepath.Join(dir, "never")) }},
+		{"close", func() { w.Close() }},
+		{"close", func() { w.Close() }},
+	}
+	for _, c := range calls {
+		c := c
+		if !withTimeout(c.f) {
+			fail("C05", "control-call-blocked", "recursive watch, %s, Events not received: %s never returned (cap=%d)", how, c.name, capEv)
+			fail("C13", "close-never-returns", "recursive watch, %s: %s blocked, nothing can be released", how, c.name)
+			fail("C06", "close-never-completes", "recursive watch, %s: %s blocked", how, c.name)
+			return
+		}
+	}
+	ec, rc := closedWithin(w.Events, w.Errors, watchdog)
+	if !ec || !rc {
+		fail("C06", "channels-not-closed-after-close", "recursive: events_closed=%v errors_closed=%v", ec, rc)
+	}
+	for _, pth := range []string{filepath.Join(dir, "..."), filepath.Join(base, "missing", "..."), filepath.Join(outside, "t", "u", "file", "..."), dir} {
+		if err := w.Add(pth); !errors.Is(err, fsnotify.ErrClosed) {
+			fail("C06", "add-after-close-not-errclosed", "Add(%q) after Close: %v", strings.TrimPrefix(pth, base), err)
+		}
+	}
+	deadline := time.Now().Add(watchdog)
+	for time.Now().Before(deadline) && (inotifyFds() > before || fsnotifyGoroutines() > 0) {
+		time.Sleep(5 * time.Millisecond)
+	}
+	if n := inotifyFds(); n > before {
+		fail("C13", "inotify-descriptor-leaked", "recursive: before=%d after=%d", before, n)
+	}
+	if g := fsnotifyGoroutines(); g > 0 {
+		fail("C13", "reader-goroutine-leaked", "recursive: %d", g)
+	}
+}
+
+// overflowThenClose: Close arrives while the overflow report (or a pending event) is waiting for a consumer that never
+// comes; repeated, because what happens next is decided by a select.  Nothing may be sent on a closed channel (that
+// panics the whole process), both channels close, every descriptor goes.
+func overflowThenClose(rng *rand.Rand, rounds int) {
+	scen("overflow-then-close rounds=%d", rounds)
+	dir, _ := os.MkdirTemp("", "vconc")
+	defer os.RemoveAll(dir)
+	for i := 0; i < rounds; i++ {
+		p, err := newPiped(uint(rng.Intn(3)))
+		if err != nil {
+			return
+		}
+		p.w.Add(dir)
+		var dg []byte
+		if rng.Intn(2) == 0 {
+			dg = append(dg, rec(1, unix.IN_CREATE, 0, "x")...)
+		}
+		dg = append(dg, rec(-1, unix.IN_Q_OVERFLOW, 0, "")...)
+		dg = append(dg, rec(1, unix.IN_CREATE, 0, "y")...)
+		unix.Write(p.sock, dg)
+		if rng.Intn(2) == 0 {
+			time.Sleep(time.Duration(rng.Intn(1500)) * time.Microsecond)
+		}
+		if !withTimeout(func() { p.w.Close() }) {
+			fail("C05", "close-blocked", "overflow pending, no consumer")
+			p.shutdown()
+			return
+		}
+		ec, rc := closedWithin(p.w.Events, p.w.Errors, watchdog)
+		if !ec || !rc {
+			fail("C06", "channels-not-closed-after-close", "overflow pending: events_closed=%v errors_closed=%v", ec, rc)
+		}
+		time.Sleep(200 * time.Microsecond) // a stray sender, if any, gets its chance
+		p.shutdown()
+	}
+}
+
+// recursiveReact: under a recursive watch a new directory is covered from the moment its Create event is delivered: a
+// consumer that reacts to that event at once by creating a file inside it gets the file's Create.
+func recursiveReact(rng *rand.Rand, rounds int, capEv uint) {
+	fsnotify.VerifSetRecurse(true)
+	defer fsnotify.VerifSetRecurse(false)
+	base, _ := os.MkdirTemp("", "vconc")
+	defer os.RemoveAll(base)
+	dir := filepath.Join(base, "watched")
+	os.MkdirAll(dir, 0o755)
+	w, err := newW(capEv)
+	if err != nil {
+		return
+	}
+	defer w.Close()
+	if err := w.Add(filepath.Join(dir, "...")); err != nil {
+		fmt.Fprintf(out, "  recursive Add not supported here: %v\n", err)
+		return
+	}
+	scen("recursive-react rounds=%d cap=%d", rounds, capEv)
+	inner := make(chan string, 1024)
+	stop := make(chan struct{})
+	go func() {
+		for {
+			select {
+			case e, ok := <-w.Events:
+				if !ok {
+					return
+				}
+				b := filepath.Base(e.Name)
+				if e.Op&fsnotify.Create != 0 && strings.HasPrefix(b, "n") {
+					os.WriteFile(filepath.Join(e.Name, "f"), nil, 0o644) // react at once, inside the new directory
+				} else if e.Op&fsnotify.Create != 0 && b == "f" {
+					inner <- e.Name
+				}
+			case <-w.Errors:
+			case <-stop:
+				return
+			}
+		}
+	}()
+	defer close(stop)
+	for k := 0; k < 3; k++ { // ordinary API use by other goroutines meanwhile
+		go func() {
+			for {
+				select {
+				case <-stop:
+					return
+				default:
+					w.WatchList()
+				}
+			}
+		}()
+	}
+	missed := 0
+	for i := 0; i < rounds; i++ {
+		d := filepath.Join(dir, fmt.Sprintf("n%d", i))
+		if i%3 == 2 { // nested: the parent is itself a directory created a moment ago
+			d = filepath.Join(dir, fmt.Sprintf("n%d", i-1), fmt.Sprintf("n%d", i))
+		}
+		os.Mkdir(d, 0o755)
+		arrived := false
+		select {
+		case <-inner:
+			arrived = true
+		case <-time.After(watchdog / 2):
+		}
+		if !arrived && confirmsLeft > 0 { // lost for good, or merely late on an overloaded machine?
+			select {
+			case <-inner:
+				arrived = true
+				slowdowns++
+				if watchdog < 24*time.Second {
+					watchdog *= 2
+				}
+			case <-time.After(5 * watchdog):
+				confirmsLeft--
+			}
+		}
+		if !arrived {
+			missed++
+			if missed <= 2 {
+				fail("C19", "new-directory-not-covered-when-its-create-is-delivered", "round %d: a file created in %s right after its Create event was received is never reported", i, strings.TrimPrefix(d, base))
+			}
+			if missed >= 2 {
+				return
+			}
+		}
+	}
+}
+
 // lateErrorsConsumer: the overflow report waits for its consumer.  Events were lost in the kernel queue; whoever starts
 // receiving from Errors later — after working through Events first, or after a pause — still gets ErrEventOverflow, and
 // the notifications queued behind the overflow record are delivered after it.
@@ -1354,7 +1577,9 @@ func guard(name string, f func()) {
 		fail("C05", "scenario-hung", "%s: a library call never returned (goroutines: %d readers alive)", name, fsnotifyGoroutines())
 		fail("C07", "deadlock", "%s: a library call never returned", name)
 		hung++
-		if hung >= 2 { // the verdict is established; the remaining scenarios would each wait just as long
+		// the verdict is established once the property this run is for has a failure of its own; the remaining scenarios
+		// would each wait just as long
+		if (hung >= 2 && (*owner == "" || ownerFails > 0)) || hung >= 5 {
 			fmt.Fprintf(out, "SUMMARY scenarios=%d failures=%d aborted_after_hung_scenarios=%d\n", nscen, nfail, hung)
 			os.Exit(1)
 		}
@@ -1395,6 +1620,28 @@ func main() {
 			cp, cl, tr := []uint{0, 1, 64}[rng.Intn(3)], 1+rng.Intn(4), rng.Intn(3) != 0
 			guard("closerace", func() { closeRace(rng, cp, cl, tr) })
 		}
+	}
+	if has("closerace") {
+		n := 60
+		if thorough {
+			n = 600
+		}
+		guard("overflow-then-close", func() { overflowThenClose(rng, n) })
+	}
+	if has("closerace") || has("pending") {
+		for _, how := range []string{"move-tree-in", "mkdir-p", "move-then-rename"} {
+			how := how
+			guard("recursive", func() { recursiveScenario(rng, 0, how) })
+			guard("recursive", func() { recursiveScenario(rng, 4, how) })
+		}
+	}
+	if has("react") {
+		n := 150
+		if thorough {
+			n = 1500
+		}
+		guard("recursive-react", func() { recursiveReact(rng, n, 0) })
+		guard("recursive-react", func() { recursiveReact(rng, n/2, 8) })
 	}
 	if has("readerr") {
 		guard("readerr", func() { readError(rng, true) })
